@@ -445,7 +445,42 @@ def fam_longflat(rng):
     return '@if false {a{b:c}} ' + ' '.join('@else if false {a{b:c}}' for _ in range(min(n, 2500))) + ' @else {a{b:d}}'
 
 
-FAMILIES = [('longflat', fam_longflat, 2), ('amp', fam_amp, 10), ('color', fam_color, 10), ('for', fam_for, 5), ('units', fam_units, 6),
+CHAN_FUNCS = ['rgb', 'rgba', 'hsl', 'hsla', 'hwb', 'color.hwb', 'lab', 'lch', 'oklab', 'oklch', 'color', 'color.change', 'color.adjust',
+              'color.scale', 'color.mix', 'color.to-space', 'color.channel', 'mix', 'invert', 'grayscale', 'adjust-hue']
+CHAN_ELEMS = ['0', '30%', '40%', '120deg', '1', '0.5', '255', 'none', 'var(--x)', 'calc(1 + 2)', 'a', '"s"', 'null', '()', 'srgb', 'hsl', '1e9', '-1',
+              'math.div(0, 0)', '100% 50%', '(1 2)', '[1]', 'red', '#123']
+
+
+def fam_channels(rng):
+    """colour (and other) functions given channel lists of every shape: lengths 0..5, every separator, also the short slash and
+    comma lists that only list.append / list.join can build, bracketed and nested lists, a / alpha part in any position"""
+    def lst(depth=0):
+        n = rng.choice([0, 1, 1, 2, 3, 3, 4, 5])
+        els = [rng.choice(CHAN_ELEMS) if depth or rng.random() < 0.8 else '(%s)' % lst(1) for _ in range(n)]
+        k = rng.random()
+        sep = rng.choice(['space', 'comma', 'slash'])
+        if k < 0.35:
+            e = '()'
+            for x in els:
+                e = 'list.append(%s, %s, $separator: %s)' % (e, x, sep)
+            return e
+        if k < 0.45:
+            return 'list.join((), (%s), %s)' % (' '.join(els) if els else '', sep)
+        if k < 0.55:
+            return 'list.slash(%s)' % ', '.join(els) if len(els) >= 2 else 'list.join((), (), slash)'
+        if k < 0.65:
+            return '[%s]' % ' '.join(els)
+        if k < 0.8 and els:
+            return '%s / %s' % (' '.join(els), rng.choice(CHAN_ELEMS))
+        return {'space': ' ', 'comma': ', ', 'slash': ' / '}[sep].join(els) if els else '()'
+    f = rng.choice(CHAN_FUNCS)
+    args = [lst()] + [rng.choice(CHAN_ELEMS) for _ in range(rng.choice([0, 0, 0, 1, 2]))]
+    named = rng.random() < 0.15
+    call = '%s(%s)' % (f, ', '.join(('$channels: ' + a) if (named and i == 0) else a for i, a in enumerate(args)))
+    return '@use "sass:list"; @use "sass:color"; @use "sass:math"; a{b: %s}' % call
+
+
+FAMILIES = [('channels', fam_channels, 8), ('longflat', fam_longflat, 2), ('amp', fam_amp, 10), ('color', fam_color, 10), ('for', fam_for, 5), ('units', fam_units, 6),
             ('nest', fam_nest, 10), ('value', fam_value, 18), ('call', fam_call, 18), ('errpos', fam_errpos, 8),
             ('mutate', None, 12), ('corpus', None, 6)]
 
